@@ -12,6 +12,7 @@
 #include "vdrv.h"
 #include "hx.h"
 #include <sys/prctl.h>
+#include <sched.h>
 
 /* ---------------- model ---------------- */
 #define M_MAXT	4
@@ -749,6 +750,14 @@ enumerate(void)
 			perror("mmap");
 			_exit(5);
 		}
+	}
+	/* forks are ~20x cheaper when parent and child stay on one CPU */
+	if (vd_opt_l("pin", 1)) {
+		cpu_set_t cs;
+		long ncpu = sysconf(_SC_NPROCESSORS_ONLN);
+		CPU_ZERO(&cs);
+		CPU_SET((unsigned)(vd_shard % (ncpu > 0 ? ncpu : 1)), &cs);
+		(void)sched_setaffinity(0, sizeof(cs), &cs);
 	}
 	hx_boot(1);
 	memset(&M, 0, sizeof(M));
